@@ -23,7 +23,7 @@ func init() {
 			"deprecated int64 options are exercised with values 0..2^63-1 only",
 			"indexed modes are run on files whose summary keeps chunk indexes and repeated schemas/channels; other files are read by the scan",
 		},
-		batches: map[string]int{"quick": 48, "thorough": 400},
+		batches: map[string]int{"quick": 48, "thorough": 96},
 		checks:  map[string]int{"quick": 150, "thorough": 250},
 	}})
 }
